@@ -1,10 +1,10 @@
 from common import T_COMMON
 
 CFG = dict(
-    modules=["PolyVerif.Props.C03", "PolyVerif.Props.C03Values", "PolyVerif.Props.C03Normals", "PolyVerif.Props.C03Laplacian"],
+    modules=["PolyVerif.Props.C03", "PolyVerif.Props.C03Values", "PolyVerif.Props.C03Normals", "PolyVerif.Props.C03Laplacian", "PolyVerif.Props.C03WeldUnweld"],
     gen=[dict(spec="transform.json", out="Transform.lean")],
     theorems=["unweld_spec", "unweld_idem", "removeUnreferenced_spec", "removeUnreferenced_allReferenced", "filterAttr_allReferenced", "flip_spec", "flip_flip", "flip_rejects",
-              "toPointCloud_spec", "split_single", "split_rejects_non_triangle", "split_partition", "split_spec", "weld_corners", "weld_representative", "weld_survivors", "weld_spec", "append_spec", "append_rejects", "append_cornersOrZero", "repeatMesh_corners", "filterAttr_spec", "crop_spec", "removeNullFaces_spec", "filterAttr_rejects", "crop_rejects", "removeNullFaces_rejects", "weld_rejects", "setAttr_spec", "modifyAttr_spec", "mapAttr_spec", "modifyAttr_rejects",
+              "toPointCloud_spec", "split_single", "split_rejects_non_triangle", "split_partition", "split_spec", "weld_corners", "weld_representative", "weld_survivors", "weld_spec", "weld_keyCorners", "weld_unweld", "append_spec", "append_rejects", "append_cornersOrZero", "repeatMesh_corners", "filterAttr_spec", "crop_spec", "removeNullFaces_spec", "filterAttr_rejects", "crop_rejects", "removeNullFaces_rejects", "weld_rejects", "setAttr_spec", "modifyAttr_spec", "mapAttr_spec", "modifyAttr_rejects",
               "translate_spec", "scaleAbout_spec", "scaleMesh_spec", "rotate_spec", "applyTRS_spec", "center_spec",
               "normalize_spec", "translate_post", "scaleAbout_post", "rotate_post", "rotate_unit_post", "applyTRS_post", "center_post", "normalize_post",
               "smoothAccum_sum", "smoothAccum_perm", "smoothNormals_values", "smoothNormalAt_unit", "smoothNormalAt_unreferenced", "smoothNormals_spec",
@@ -27,8 +27,6 @@ CFG = dict(
              "non-empty array IEEE min(+Inf, x) = x makes them the same fold)",
              "value maps of SmoothNormals / FlatNormals / LaplacianSmooth are definitions tied bit-for-bit (Laplacian: 2^20 ulps or 1e-6 absolute, Go map order makes the float sum "
              "order-dependent) to the code; only their frame is proved; Laplacian order-independence over a commutative ring not proved",
-             "composition weld-after-unweld: not a theorem (it would follow from weld_spec + unweld_spec + unweld_wf by relating the survivors of the two index lists); covered by bit-exact "
-             "correspondence of both welds and the WeldSpec oracle on each; flip twice is a theorem (flip_flip)",
              "split parts: material identity is the *Material pointer in Go (model: a Nat id; the harness gives every material a distinct Name and compares by it, SetMaterial copies "
              "the struct so pointers differ after the split); a nil Material in a range makes SplitOnUniqueMaterials dereference nil (runtime panic) - the harness never generates nil "
              "materials; ranges shorter than the triangle list: index-out-of-range panic recovered by the harness and counted as rejection (model: none)",
